@@ -1840,3 +1840,480 @@ Definition g_pub_coverage_ratio {TL : Type} {DT : Type} {TD : Type} {LBL : Type}
     res_bind (g_windowed_agg fuel tl_slice tl_make p_fromtimestamp p_ymd p_ymdh p_hours p_days p_weeks p_add p_sub p_lt p_timestamp p_weekday p_year p_month p_day p_hour p_date p_dt_label timeline start end_ period (g_cov_agg tl_flatten tl_slice)) (fun r3_ =>
     (RDone (inl r3_)))
   end).
+
+(* calgebra/gcsa.py: _infer_is_all_day *)
+Definition g_gcsa_infer_is_all_day {TZ : Type} {DT : Type} {TIME : Type} {TD : Type} (tz_utc : TZ) (dt_fromtimestamp : Z -> TZ -> DT) (dt_time : DT -> TIME) (time_min : TIME) (time_neb : TIME -> TIME -> bool) (td_of_seconds : Z -> TD) (td_of_days : Z -> TD) (td_of_hours : Z -> TD) (td_days : TD -> Z) (td_sub : TD -> TD -> TD) (td_gtb : TD -> TD -> bool) (start_ts : Z) (end_ts : Z) (calendar_tz : option TZ) : bool :=
+  let tz := (match calendar_tz with Some calendar_tz => calendar_tz | None => tz_utc end) in
+  let start_dt := (dt_fromtimestamp start_ts tz) in
+  let end_dt := (dt_fromtimestamp end_ts tz) in
+  if ((time_neb (dt_time start_dt) time_min) || (time_neb (dt_time end_dt) time_min)) then
+    false
+  else
+    let duration := (td_of_seconds (end_ts - start_ts)) in
+    let days := (td_days duration) in
+    let remainder := (td_sub duration (td_of_days days)) in
+    if (td_gtb remainder (td_of_hours 1)) then
+      false
+    else
+      true.
+
+(* calgebra/gcsa.py: Calendar._fetch_reverse *)
+Definition g_gcsa_fetch_reverse {EV : Type} (fuel : nat) (fetch_forward : option Z -> option Z -> list EV) (ev_start : EV -> Z) (start : option Z) (end_ : option Z) : res (list EV) :=
+  match end_ with
+  | Some end_ =>
+    let start :=
+      match start with
+      | Some start =>
+        start
+      | None =>
+        let start := (end_ - (365 * 86400)) in
+        start
+      end in
+    let window_size := (30 * 86400) in
+    let current_end := end_ in
+    run_while fuel
+      (fun current_end => (current_end >? start))
+      (fun current_end =>
+        let out := @nil EV in
+        let window_start := (Z.max start (current_end - window_size)) in
+        let fetch_from := (if (window_start =? start) then window_start else (window_start - 1)) in
+        let window_events := (filter (fun ev => ((((ev_start ev) <? current_end) || (current_end =? end_)) && (((ev_start ev) >=? window_start) || (window_start =? start)))) (fetch_forward (Some fetch_from) (Some current_end))) in
+        let out := out ++ (rev window_events) in
+        let current_end := window_start in
+        (out, current_end, Cont))
+      (fun current_end =>
+        let out := @nil EV in
+        out)
+      current_end
+  | None =>
+    (RRaise ValueError)
+  end.
+
+(* calgebra/gcsa.py: _timestamp_to_datetime *)
+Definition g_gcsa_ts_to_dt {TZ : Type} {DT : Type} (tz_utc : TZ) (dt_fromtimestamp : Z -> TZ -> DT) (ts : Z) : DT :=
+  (dt_fromtimestamp ts tz_utc).
+
+(* calgebra/gcsa.py: _format_exdate *)
+Definition g_gcsa_format_exdate {TZ : Type} {DT : Type} {EXD : Type} (tz_utc : TZ) (dt_fromtimestamp : Z -> TZ -> DT) (dt_strftime_exdate : DT -> EXD) (timestamp : Z) : EXD :=
+  let dt := (g_gcsa_ts_to_dt tz_utc dt_fromtimestamp timestamp) in
+  (dt_strftime_exdate dt).
+
+(* calgebra/gcsa.py: _add_exdate_to_rrule *)
+Definition g_gcsa_add_exdate_to_rrule {RR : Type} {EXD : Type} {PART : Type} (parse_exdates_from_rrule : RR -> RR * list EXD) (exd_eqb : EXD -> EXD -> bool) (mk_exdate_part : list EXD -> PART) (rr_snoc : RR -> PART -> RR) (rrule_str : RR) (exdate_str : EXD) : RR :=
+  let '(base_rrule, existing_exdates) := (parse_exdates_from_rrule rrule_str) in
+  let existing_exdates :=
+    if (negb (existsb (exd_eqb exdate_str) existing_exdates)) then
+      let existing_exdates := (existing_exdates ++ [exdate_str]) in
+      existing_exdates
+    else
+      existing_exdates in
+  let exdate_part := (mk_exdate_part existing_exdates) in
+  (rr_snoc base_rrule exdate_part).
+
+(* calgebra/gcsa.py: _normalize_datetime *)
+Definition g_gcsa_normalize_datetime {TZ : Type} {DV : Type} {TIME : Type} (tz_utc : TZ) (time_min : TIME) (dv_is_datetime : DV -> bool) (dv_tzinfo : DV -> option TZ) (dv_combine : DV -> TIME -> TZ -> DV) (dv_replace_tzinfo : DV -> TZ -> DV) (dv_astimezone : DV -> TZ -> DV) (dt : DV) (zone : option TZ) : DV :=
+  let dt :=
+    if (negb (dv_is_datetime dt)) then
+      let tz := (match zone with Some zone => zone | None => tz_utc end) in
+      let dt := (dv_combine dt time_min tz) in
+      dt
+    else
+      if (is_none (dv_tzinfo dt)) then
+        let tz := (match zone with Some zone => zone | None => tz_utc end) in
+        let dt := (dv_replace_tzinfo dt tz) in
+        dt
+      else
+        dt in
+  (dv_astimezone dt tz_utc).
+
+(* calgebra/gcsa.py: _to_timestamp *)
+Definition g_gcsa_to_timestamp {TZ : Type} {DV : Type} {TIME : Type} (tz_utc : TZ) (time_min : TIME) (dv_is_datetime : DV -> bool) (dv_tzinfo : DV -> option TZ) (dv_combine : DV -> TIME -> TZ -> DV) (dv_replace_tzinfo : DV -> TZ -> DV) (dv_astimezone : DV -> TZ -> DV) (dv_replace_us : DV -> Z -> DV) (dv_timestamp : DV -> Z) (dt : DV) (zone : option TZ) : Z :=
+  let normalized := (g_gcsa_normalize_datetime tz_utc time_min dv_is_datetime dv_tzinfo dv_combine dv_replace_tzinfo dv_astimezone dt zone) in
+  (dv_timestamp (dv_replace_us normalized 0)).
+
+(* calgebra/gcsa.py: _is_all_day_event *)
+Definition g_gcsa_is_all_day_event {TZ : Type} {TZNAME : Type} {DV : Type} {TIME : Type} {TD : Type} {ATTR : Type} {EVT : Type} (tz_utc : TZ) (zoneinfo : TZNAME -> TZ) (gev_start : EVT -> DV) (gev_end : EVT -> DV) (gev_timezone : EVT -> option TZNAME) (extract_datetime : DV -> DV) (dv_is_date : DV -> bool) (dv_is_datetime : DV -> bool) (dv_has_date_attr : DV -> bool) (dv_date_attr : DV -> ATTR) (attr_is_none : ATTR -> bool) (attr_callable : ATTR -> bool) (dv_tzinfo : DV -> option TZ) (dv_astimezone : DV -> TZ -> DV) (dv_replace_tzinfo : DV -> TZ -> DV) (dv_time : DV -> TIME) (time_min : TIME) (time_neb : TIME -> TIME -> bool) (dv_sub : DV -> DV -> TD) (td_days : TD -> Z) (td_of_days : Z -> TD) (td_of_hours : Z -> TD) (td_sub : TD -> TD -> TD) (td_leb : TD -> TD -> bool) (gcsa_event : EVT) : bool :=
+  if false then
+    false
+  else
+    let start_dt := (extract_datetime (gev_start gcsa_event)) in
+    let end_dt := (extract_datetime (gev_end gcsa_event)) in
+    if ((dv_is_date start_dt) && (negb (dv_is_datetime start_dt))) then
+      if ((dv_is_date end_dt) && (negb (dv_is_datetime end_dt))) then
+        true
+      else
+        if (dv_has_date_attr (gev_start gcsa_event)) then
+          let date_attr := (dv_date_attr (gev_start gcsa_event)) in
+          if ((negb (attr_is_none date_attr)) && (negb (attr_callable date_attr))) then
+            true
+          else
+            if ((dv_is_datetime start_dt) && (dv_is_datetime end_dt)) then
+              let event_tz := (match (gev_timezone gcsa_event) with Some p1_ => (zoneinfo p1_) | None => tz_utc end) in
+              let start_local := (match (dv_tzinfo start_dt) with Some p2_ => (dv_astimezone start_dt event_tz) | None => (dv_replace_tzinfo start_dt event_tz) end) in
+              let end_local := (match (dv_tzinfo end_dt) with Some p3_ => (dv_astimezone end_dt event_tz) | None => (dv_replace_tzinfo end_dt event_tz) end) in
+              if (time_neb (dv_time start_local) time_min) then
+                false
+              else
+                let duration := (dv_sub end_local start_local) in
+                let days := (td_days duration) in
+                if (days >=? 1) then
+                  let remainder := (td_sub duration (td_of_days days)) in
+                  if (td_leb remainder (td_of_hours 1)) then
+                    true
+                  else
+                    false
+                else
+                  false
+            else
+              false
+        else
+          if ((dv_is_datetime start_dt) && (dv_is_datetime end_dt)) then
+            let event_tz := (match (gev_timezone gcsa_event) with Some p4_ => (zoneinfo p4_) | None => tz_utc end) in
+            let start_local := (match (dv_tzinfo start_dt) with Some p5_ => (dv_astimezone start_dt event_tz) | None => (dv_replace_tzinfo start_dt event_tz) end) in
+            let end_local := (match (dv_tzinfo end_dt) with Some p6_ => (dv_astimezone end_dt event_tz) | None => (dv_replace_tzinfo end_dt event_tz) end) in
+            if (time_neb (dv_time start_local) time_min) then
+              false
+            else
+              let duration := (dv_sub end_local start_local) in
+              let days := (td_days duration) in
+              if (days >=? 1) then
+                let remainder := (td_sub duration (td_of_days days)) in
+                if (td_leb remainder (td_of_hours 1)) then
+                  true
+                else
+                  false
+              else
+                false
+          else
+            false
+    else
+      if (dv_has_date_attr (gev_start gcsa_event)) then
+        let date_attr := (dv_date_attr (gev_start gcsa_event)) in
+        if ((negb (attr_is_none date_attr)) && (negb (attr_callable date_attr))) then
+          true
+        else
+          if ((dv_is_datetime start_dt) && (dv_is_datetime end_dt)) then
+            let event_tz := (match (gev_timezone gcsa_event) with Some p7_ => (zoneinfo p7_) | None => tz_utc end) in
+            let start_local := (match (dv_tzinfo start_dt) with Some p8_ => (dv_astimezone start_dt event_tz) | None => (dv_replace_tzinfo start_dt event_tz) end) in
+            let end_local := (match (dv_tzinfo end_dt) with Some p9_ => (dv_astimezone end_dt event_tz) | None => (dv_replace_tzinfo end_dt event_tz) end) in
+            if (time_neb (dv_time start_local) time_min) then
+              false
+            else
+              let duration := (dv_sub end_local start_local) in
+              let days := (td_days duration) in
+              if (days >=? 1) then
+                let remainder := (td_sub duration (td_of_days days)) in
+                if (td_leb remainder (td_of_hours 1)) then
+                  true
+                else
+                  false
+              else
+                false
+          else
+            false
+      else
+        if ((dv_is_datetime start_dt) && (dv_is_datetime end_dt)) then
+          let event_tz := (match (gev_timezone gcsa_event) with Some p10_ => (zoneinfo p10_) | None => tz_utc end) in
+          let start_local := (match (dv_tzinfo start_dt) with Some p11_ => (dv_astimezone start_dt event_tz) | None => (dv_replace_tzinfo start_dt event_tz) end) in
+          let end_local := (match (dv_tzinfo end_dt) with Some p12_ => (dv_astimezone end_dt event_tz) | None => (dv_replace_tzinfo end_dt event_tz) end) in
+          if (time_neb (dv_time start_local) time_min) then
+            false
+          else
+            let duration := (dv_sub end_local start_local) in
+            let days := (td_days duration) in
+            if (days >=? 1) then
+              let remainder := (td_sub duration (td_of_days days)) in
+              if (td_leb remainder (td_of_hours 1)) then
+                true
+              else
+                false
+            else
+              false
+        else
+          false.
+
+(* calgebra/gcsa.py: Calendar._fetch_forward *)
+Definition g_gcsa_fetch_forward {TZ : Type} {TZNAME : Type} {DV : Type} {TIME : Type} {TD : Type} {ATTR : Type} {EVT : Type} {DT : Type} {ID : Type} {RID : Type} {SUM : Type} {DESC : Type} {REMS : Type} {CID : Type} {CSUM : Type} {AEV : Type} (tz_utc : TZ) (zoneinfo : TZNAME -> TZ) (gev_start : EVT -> DV) (gev_end : EVT -> DV) (gev_timezone : EVT -> option TZNAME) (extract_datetime : DV -> DV) (dv_is_date : DV -> bool) (dv_is_datetime : DV -> bool) (dv_has_date_attr : DV -> bool) (dv_date_attr : DV -> ATTR) (attr_is_none : ATTR -> bool) (attr_callable : ATTR -> bool) (dv_tzinfo : DV -> option TZ) (dv_astimezone : DV -> TZ -> DV) (dv_replace_tzinfo : DV -> TZ -> DV) (dv_time : DV -> TIME) (time_min : TIME) (time_neb : TIME -> TIME -> bool) (dv_sub : DV -> DV -> TD) (td_days : TD -> Z) (td_of_days : Z -> TD) (td_of_hours : Z -> TD) (td_sub : TD -> TD -> TD) (td_leb : TD -> TD -> bool) (dv_combine : DV -> TIME -> TZ -> DV) (dv_replace_us : DV -> Z -> DV) (dv_timestamp : DV -> Z) (dv_is_none : DV -> bool) (tzname_utc : TZNAME) (dt_fromtimestamp : Z -> TZ -> DT) (get_events : option DT -> option DT -> list EVT) (gev_id : EVT -> option ID) (gev_summary : EVT -> option SUM) (gev_description : EVT -> option DESC) (gev_recurring_event_id : EVT -> option RID) (extract_reminders : EVT -> REMS) (mk_event : option ID -> CID -> CSUM -> option SUM -> option DESC -> option RID -> bool -> REMS -> Z -> Z -> AEV) (self_calendar_id : CID) (self_calendar_summary : CSUM) (self_calendar_timezone : option TZ) (start : option Z) (end_ : option Z) : list AEV :=
+  let start_dt := (match start with Some start => (Some (g_gcsa_ts_to_dt tz_utc dt_fromtimestamp start)) | None => None end) in
+  let end_dt := (match end_ with Some end_ => (Some (g_gcsa_ts_to_dt tz_utc dt_fromtimestamp end_)) | None => None end) in
+  let events_iterable := (get_events start_dt end_dt) in
+  run_for
+    (fun _ e =>
+      let out := @nil AEV in
+      if ((is_none (gev_id e)) || (is_none (gev_summary e)) || (dv_is_none (gev_end e))) then
+        (out, tt, Cont)
+      else
+        let event_zone := (match (gev_timezone e) with Some p1_ => (zoneinfo p1_) | None => (zoneinfo tzname_utc) end) in
+        let is_all_day := (g_gcsa_is_all_day_event tz_utc zoneinfo gev_start gev_end gev_timezone extract_datetime dv_is_date dv_is_datetime dv_has_date_attr dv_date_attr attr_is_none attr_callable dv_tzinfo dv_astimezone dv_replace_tzinfo dv_time time_min time_neb dv_sub td_days td_of_days td_of_hours td_sub td_leb e) in
+        let recurring_event_id := (gev_recurring_event_id e) in
+        let reminders := (extract_reminders e) in
+        let evt_start_dt := (extract_datetime (gev_start e)) in
+        let evt_end_dt := (extract_datetime (gev_end e)) in
+        let zone_for_timestamp :=
+          if is_all_day then
+            let zone_for_timestamp := (match self_calendar_timezone with Some p4_ => p4_ | None => (match (gev_timezone e) with Some p5_ => event_zone | None => (zoneinfo tzname_utc) end) end) in
+            zone_for_timestamp
+          else
+            let zone_for_timestamp := event_zone in
+            zone_for_timestamp in
+        let out := out ++ [(mk_event (gev_id e) self_calendar_id self_calendar_summary (gev_summary e) (gev_description e) recurring_event_id is_all_day reminders (g_gcsa_to_timestamp tz_utc time_min dv_is_datetime dv_tzinfo dv_combine dv_replace_tzinfo dv_astimezone dv_replace_us dv_timestamp evt_start_dt (Some zone_for_timestamp)) (g_gcsa_to_timestamp tz_utc time_min dv_is_datetime dv_tzinfo dv_combine dv_replace_tzinfo dv_astimezone dv_replace_us dv_timestamp evt_end_dt (Some zone_for_timestamp)))] in
+        (out, tt, Cont))
+    (fun _ =>
+      let out := @nil AEV in
+      out)
+    tt events_iterable.
+
+(* calgebra/gcsa.py: _convert_timestamps_to_datetime *)
+Definition g_gcsa_convert_timestamps {TZ : Type} {DV : Type} (tz_utc : TZ) (dv_fromtimestamp : Z -> TZ -> DV) (dv_date : DV -> DV) (start_ts : Z) (end_ts : Z) (is_all_day : bool) (calendar_tz : option TZ) : (DV * DV) :=
+  let '(start_dt, end_dt) :=
+    if is_all_day then
+      let tz := (match calendar_tz with Some calendar_tz => calendar_tz | None => tz_utc end) in
+      let start_dt := (dv_date (dv_fromtimestamp start_ts tz)) in
+      let end_dt := (dv_date (dv_fromtimestamp end_ts tz)) in
+      (start_dt, end_dt)
+    else
+      let start_dt := (g_gcsa_ts_to_dt tz_utc dv_fromtimestamp start_ts) in
+      let end_dt := (g_gcsa_ts_to_dt tz_utc dv_fromtimestamp end_ts) in
+      (start_dt, end_dt) in
+  (start_dt, end_dt).
+
+(* calgebra/gcsa.py: _prepare_event_for_add *)
+Definition g_gcsa_prepare_event_for_add {TZ : Type} {DT : Type} {TIME : Type} {TD : Type} {DV : Type} {IVLX : Type} {EVENT : Type} {ERRS : Type} {PW : Type} {CID : Type} {CSUM : Type} (tz_utc : TZ) (dt_fromtimestamp : Z -> TZ -> DT) (dt_time : DT -> TIME) (time_min : TIME) (time_neb : TIME -> TIME -> bool) (td_of_seconds : Z -> TD) (td_of_days : Z -> TD) (td_of_hours : Z -> TD) (td_days : TD -> Z) (td_sub : TD -> TD -> TD) (td_gtb : TD -> TD -> bool) (dv_fromtimestamp : Z -> TZ -> DV) (dv_date : DV -> DV) (validate_event : IVLX -> option EVENT * option ERRS) (errs_first : ERRS -> PW) (pw_assertion_error : PW) (wr_unbounded : EVENT -> PW) (ev_start : EVENT -> option Z) (ev_end : EVENT -> option Z) (ev_is_all_day : EVENT -> option bool) (ev_for_calendar : EVENT -> CID -> CSUM -> EVENT) (mk_prepared : EVENT -> Z -> Z -> bool -> DV -> DV -> PW) (interval_ : IVLX) (calendar_id : CID) (calendar_summary : CSUM) (calendar_tz : option TZ) : PW :=
+  let '(validated, error_result) := (validate_event interval_) in
+  match error_result with
+  | Some error_result =>
+    (errs_first error_result)
+  | None =>
+    let event := validated in
+    match event with
+    | Some event =>
+      if ((is_none (ev_start event)) || (is_none (ev_end event))) then
+        (wr_unbounded event)
+      else
+        let start := (ozd (ev_start event)) in
+        let end_ := (ozd (ev_end event)) in
+        let event := (ev_for_calendar event calendar_id calendar_summary) in
+        let is_all_day := (ev_is_all_day event) in
+        let is_all_day :=
+          match is_all_day with
+          | Some is_all_day =>
+            is_all_day
+          | None =>
+            let is_all_day := (g_gcsa_infer_is_all_day tz_utc dt_fromtimestamp dt_time time_min time_neb td_of_seconds td_of_days td_of_hours td_days td_sub td_gtb start end_ calendar_tz) in
+            is_all_day
+          end in
+        let '(start_dt, end_dt) := (g_gcsa_convert_timestamps tz_utc dv_fromtimestamp dv_date start end_ is_all_day calendar_tz) in
+        (mk_prepared event start end_ is_all_day start_dt end_dt)
+    | None =>
+      pw_assertion_error
+    end
+  end.
+
+(* calgebra/gcsa.py: _build_gcsa_event *)
+Definition g_gcsa_build_gcsa_event {DV : Type} {TZNAME : Type} {EVENT : Type} {PW : Type} {SUM : Type} {ODESC : Type} {REMS : Type} {GREMS : Type} {GEV : Type} (pw_event : PW -> EVENT) (pw_start_dt : PW -> DV) (pw_end_dt : PW -> DV) (pw_is_all_day : PW -> bool) (ev_summary : EVENT -> SUM) (ev_description : EVENT -> ODESC) (ev_reminders : EVENT -> REMS) (mk_gcsa_event : SUM -> DV -> DV -> option TZNAME -> ODESC -> GREMS -> GEV) (convert_reminders_to_gcsa : REMS -> GREMS) (tzname_utc : TZNAME) (prepared : PW) : GEV :=
+  let gcsa_reminders := (convert_reminders_to_gcsa (ev_reminders (pw_event prepared))) in
+  (mk_gcsa_event (ev_summary (pw_event prepared)) (pw_start_dt prepared) (pw_end_dt prepared) (if (negb (pw_is_all_day prepared)) then (Some tzname_utc) else None) (ev_description (pw_event prepared)) gcsa_reminders).
+
+(* calgebra/gcsa.py: _build_result_event *)
+Definition g_gcsa_build_result_event {DV : Type} {EVENT : Type} {PW : Type} {SUM : Type} {ODESC : Type} {REMS : Type} {CID : Type} {CSUM : Type} {ID : Type} {RID : Type} {AEV : Type} (pw_event : PW -> EVENT) (pw_start_dt : PW -> DV) (pw_end_dt : PW -> DV) (pw_is_all_day : PW -> bool) (ev_summary : EVENT -> SUM) (ev_description : EVENT -> ODESC) (ev_reminders : EVENT -> REMS) (ev_calendar_id : EVENT -> CID) (ev_calendar_summary : EVENT -> CSUM) (pw_start : PW -> Z) (pw_end : PW -> Z) (mk_result_event : ID -> CID -> CSUM -> SUM -> ODESC -> option RID -> bool -> REMS -> Z -> Z -> AEV) (prepared : PW) (event_id : ID) : AEV :=
+  (mk_result_event event_id (ev_calendar_id (pw_event prepared)) (ev_calendar_summary (pw_event prepared)) (ev_summary (pw_event prepared)) (ev_description (pw_event prepared)) None (pw_is_all_day prepared) (ev_reminders (pw_event prepared)) (pw_start prepared) (pw_end prepared)).
+
+(* calgebra/gcsa.py: Calendar._add_recurring *)
+Definition g_gcsa_add_recurring {TZ : Type} {TZNAME : Type} {DV : Type} {TIME : Type} {TD : Type} {EXD : Type} {RR : Type} {PART : Type} {PAT : Type} {MD : Type} {SUM : Type} {ODESC : Type} {REMV : Type} {GREMS : Type} {GEV : Type} {CREATED : Type} {ID : Type} {RID : Type} {CID : Type} {CSUM : Type} {AEV : Type} {WRS : Type} (tz_utc : TZ) (dv_fromtimestamp : Z -> TZ -> DV) (dv_time : DV -> TIME) (time_min : TIME) (time_neb : TIME -> TIME -> bool) (td_of_seconds : Z -> TD) (td_of_days : Z -> TD) (td_of_hours : Z -> TD) (td_days : TD -> Z) (td_sub : TD -> TD -> TD) (td_gtb : TD -> TD -> bool) (dv_date : DV -> DV) (dv_now : TZ -> DV) (dv_midnight : DV -> DV) (dv_add : DV -> TD -> DV) (dv_timestamp : DV -> Z) (dt_strftime_exdate : DV -> EXD) (parse_exdates_from_rrule : RR -> RR * list EXD) (exd_eqb : EXD -> EXD -> bool) (mk_exdate_part : list EXD -> PART) (rr_snoc : RR -> PART -> RR) (md_merge : PAT -> MD -> MD) (pat_rrule_line : PAT -> RR) (py_sorted : list Z -> list Z) (md_has_start : MD -> bool) (md_start : MD -> Z) (tz_name_eqb : TZ -> TZ -> bool) (tz_name : TZ -> TZNAME) (md_summary : MD -> SUM) (md_description : MD -> ODESC) (md_reminders : MD -> REMV) (remv_is_list : REMV -> bool) (remv_all_reminders : REMV -> bool) (convert_reminders_to_gcsa : REMV -> GREMS) (wrs_bad_reminders : WRS) (wrs_no_id : WRS) (wrs_success : AEV -> WRS) (mk_gcsa_rec_event : SUM -> DV -> DV -> option TZNAME -> ODESC -> option GREMS -> RR -> GEV) (add_event : GEV -> CREATED) (created_id : CREATED -> option ID) (mk_result_event : option ID -> CID -> CSUM -> SUM -> ODESC -> option RID -> bool -> option REMV -> Z -> Z -> AEV) (pat_exdates : PAT -> list Z) (pat_anchor_timestamp : PAT -> option Z) (pat_zone : PAT -> TZ) (pat_start_seconds : PAT -> Z) (pat_duration_seconds : PAT -> Z) (self_calendar_id : CID) (self_calendar_summary : CSUM) (self_calendar_timezone : option TZ) (pattern : PAT) (metadata : MD) : WRS :=
+  let merged_metadata := (md_merge pattern metadata) in
+  let rrule_str := (pat_rrule_line pattern) in
+  if (nonempty (pat_exdates pattern)) then
+    iter_for
+      (fun rrule_str exdate_ts =>
+        let exdate_str := (g_gcsa_format_exdate tz_utc dv_fromtimestamp dt_strftime_exdate exdate_ts) in
+        let rrule_str := (g_gcsa_add_exdate_to_rrule parse_exdates_from_rrule exd_eqb mk_exdate_part rr_snoc rrule_str exdate_str) in
+        (SCont rrule_str))
+      (fun rrule_str =>
+        let series_start_ts :=
+          if (md_has_start merged_metadata) then
+            let series_start_ts := (md_start merged_metadata) in
+            series_start_ts
+          else
+            if (negb (is_none (pat_anchor_timestamp pattern))) then
+              let series_start_ts := (ozd (pat_anchor_timestamp pattern)) in
+              series_start_ts
+            else
+              let now_in_tz := (dv_now (pat_zone pattern)) in
+              let today_midnight := (dv_midnight now_in_tz) in
+              let start_delta := (td_of_seconds (pat_start_seconds pattern)) in
+              let series_start_dt_tz := (dv_add today_midnight start_delta) in
+              let series_start_ts := (dv_timestamp series_start_dt_tz) in
+              series_start_ts in
+        let series_end_ts := (dv_timestamp (dv_add (dv_fromtimestamp series_start_ts (pat_zone pattern)) (td_of_seconds (pat_duration_seconds pattern)))) in
+        let is_all_day := (((pat_duration_seconds pattern) =? 86400) && (tz_name_eqb (pat_zone pattern) (match self_calendar_timezone with Some v_ => v_ | None => tz_utc end)) && (g_gcsa_infer_is_all_day tz_utc dv_fromtimestamp dv_time time_min time_neb td_of_seconds td_of_days td_of_hours td_days td_sub td_gtb series_start_ts series_end_ts self_calendar_timezone)) in
+        let '(series_start_dt, series_end_dt) :=
+          if is_all_day then
+            let '(series_start_dt, series_end_dt) := (g_gcsa_convert_timestamps tz_utc dv_fromtimestamp dv_date series_start_ts series_end_ts true self_calendar_timezone) in
+            (series_start_dt, series_end_dt)
+          else
+            let series_start_dt := (dv_fromtimestamp series_start_ts (pat_zone pattern)) in
+            let series_end_dt := (dv_fromtimestamp series_end_ts (pat_zone pattern)) in
+            (series_start_dt, series_end_dt) in
+        let summary := (md_summary merged_metadata) in
+        let description := (md_description merged_metadata) in
+        let reminders := (md_reminders merged_metadata) in
+        if (remv_is_list reminders) then
+          if (negb (remv_all_reminders reminders)) then
+            wrs_bad_reminders
+          else
+            let gcsa_reminders := (Some (convert_reminders_to_gcsa reminders)) in
+            let validated_reminders := (Some reminders) in
+            let event_timezone := (if (negb is_all_day) then (Some (tz_name (pat_zone pattern))) else None) in
+            let gcsa_event := (mk_gcsa_rec_event summary series_start_dt series_end_dt event_timezone description gcsa_reminders rrule_str) in
+            let created_event := (add_event gcsa_event) in
+            if (negb (negb (is_none (created_id created_event)))) then
+              wrs_no_id
+            else
+              let result_event := (mk_result_event (created_id created_event) self_calendar_id self_calendar_summary summary description None is_all_day validated_reminders series_start_ts series_end_ts) in
+              (wrs_success result_event)
+        else
+          let gcsa_reminders := None in
+          let validated_reminders := None in
+          let event_timezone := (if (negb is_all_day) then (Some (tz_name (pat_zone pattern))) else None) in
+          let gcsa_event := (mk_gcsa_rec_event summary series_start_dt series_end_dt event_timezone description gcsa_reminders rrule_str) in
+          let created_event := (add_event gcsa_event) in
+          if (negb (negb (is_none (created_id created_event)))) then
+            wrs_no_id
+          else
+            let result_event := (mk_result_event (created_id created_event) self_calendar_id self_calendar_summary summary description None is_all_day validated_reminders series_start_ts series_end_ts) in
+            (wrs_success result_event))
+      rrule_str (py_sorted (pat_exdates pattern))
+  else
+    let series_start_ts :=
+      if (md_has_start merged_metadata) then
+        let series_start_ts := (md_start merged_metadata) in
+        series_start_ts
+      else
+        if (negb (is_none (pat_anchor_timestamp pattern))) then
+          let series_start_ts := (ozd (pat_anchor_timestamp pattern)) in
+          series_start_ts
+        else
+          let now_in_tz := (dv_now (pat_zone pattern)) in
+          let today_midnight := (dv_midnight now_in_tz) in
+          let start_delta := (td_of_seconds (pat_start_seconds pattern)) in
+          let series_start_dt_tz := (dv_add today_midnight start_delta) in
+          let series_start_ts := (dv_timestamp series_start_dt_tz) in
+          series_start_ts in
+    let series_end_ts := (dv_timestamp (dv_add (dv_fromtimestamp series_start_ts (pat_zone pattern)) (td_of_seconds (pat_duration_seconds pattern)))) in
+    let is_all_day := (((pat_duration_seconds pattern) =? 86400) && (tz_name_eqb (pat_zone pattern) (match self_calendar_timezone with Some v_ => v_ | None => tz_utc end)) && (g_gcsa_infer_is_all_day tz_utc dv_fromtimestamp dv_time time_min time_neb td_of_seconds td_of_days td_of_hours td_days td_sub td_gtb series_start_ts series_end_ts self_calendar_timezone)) in
+    let '(series_start_dt, series_end_dt) :=
+      if is_all_day then
+        let '(series_start_dt, series_end_dt) := (g_gcsa_convert_timestamps tz_utc dv_fromtimestamp dv_date series_start_ts series_end_ts true self_calendar_timezone) in
+        (series_start_dt, series_end_dt)
+      else
+        let series_start_dt := (dv_fromtimestamp series_start_ts (pat_zone pattern)) in
+        let series_end_dt := (dv_fromtimestamp series_end_ts (pat_zone pattern)) in
+        (series_start_dt, series_end_dt) in
+    let summary := (md_summary merged_metadata) in
+    let description := (md_description merged_metadata) in
+    let reminders := (md_reminders merged_metadata) in
+    if (remv_is_list reminders) then
+      if (negb (remv_all_reminders reminders)) then
+        wrs_bad_reminders
+      else
+        let gcsa_reminders := (Some (convert_reminders_to_gcsa reminders)) in
+        let validated_reminders := (Some reminders) in
+        let event_timezone := (if (negb is_all_day) then (Some (tz_name (pat_zone pattern))) else None) in
+        let gcsa_event := (mk_gcsa_rec_event summary series_start_dt series_end_dt event_timezone description gcsa_reminders rrule_str) in
+        let created_event := (add_event gcsa_event) in
+        if (negb (negb (is_none (created_id created_event)))) then
+          wrs_no_id
+        else
+          let result_event := (mk_result_event (created_id created_event) self_calendar_id self_calendar_summary summary description None is_all_day validated_reminders series_start_ts series_end_ts) in
+          (wrs_success result_event)
+    else
+      let gcsa_reminders := None in
+      let validated_reminders := None in
+      let event_timezone := (if (negb is_all_day) then (Some (tz_name (pat_zone pattern))) else None) in
+      let gcsa_event := (mk_gcsa_rec_event summary series_start_dt series_end_dt event_timezone description gcsa_reminders rrule_str) in
+      let created_event := (add_event gcsa_event) in
+      if (negb (negb (is_none (created_id created_event)))) then
+        wrs_no_id
+      else
+        let result_event := (mk_result_event (created_id created_event) self_calendar_id self_calendar_summary summary description None is_all_day validated_reminders series_start_ts series_end_ts) in
+        (wrs_success result_event).
+
+(* calgebra/gcsa.py: _error_result *)
+Definition g_gcsa_error_result {EXC : Type} {WRS : Type} (wrs_error : EXC -> WRS) (error : EXC) : WRS :=
+  (wrs_error error).
+
+(* calgebra/gcsa.py: _handle_write_errors *)
+Definition g_gcsa_handle_write_errors {EXC : Type} {WRS : Type} (wrs_error : EXC -> WRS) (func_call : WRS + EXC) : res WRS :=
+  match func_call with
+  | inl v_ =>
+    (RDone v_)
+  | inr e =>
+    (RDone (g_gcsa_error_result wrs_error e))
+  end.
+
+(* calgebra/gcsa.py: Calendar._remove_recurring_instance *)
+Definition g_gcsa_remove_recurring_instance {TZ : Type} {DT : Type} {EXD : Type} {RR : Type} {PART : Type} {RECL : Type} {MEV : Type} {ID : Type} {AEV : Type} {EXC : Type} {WRS : Type} (tz_utc : TZ) (dt_fromtimestamp : Z -> TZ -> DT) (dt_strftime_exdate : DT -> EXD) (parse_exdates_from_rrule : RR -> RR * list EXD) (exd_eqb : EXD -> EXD -> bool) (mk_exdate_part : list EXD -> PART) (rr_snoc : RR -> PART -> RR) (get_event : ID -> MEV + EXC) (update_event : MEV -> unit + EXC) (mev_has_recurrence : MEV -> bool) (mev_line : MEV -> RR) (mev_recurrence_with : MEV -> RR -> RECL) (mev_set_recurrence : MEV -> RECL -> MEV) (wrs_error_fetch : ID -> EXC -> WRS) (wrs_error_norec : ID -> WRS) (wrs_error_nostart : WRS) (wrs_error_update : EXC -> WRS) (wrs_success : AEV -> WRS) (aev_start : AEV -> option Z) (instance : AEV) (master_event_id : ID) : res WRS :=
+  match (get_event master_event_id) with
+  | inl master_event =>
+    if (negb (mev_has_recurrence master_event)) then
+      (RDone (wrs_error_norec master_event_id))
+    else
+      let rrule_str := (mev_line master_event) in
+      if (is_none (aev_start instance)) then
+        (RDone wrs_error_nostart)
+      else
+        let exdate_str := (g_gcsa_format_exdate tz_utc dt_fromtimestamp dt_strftime_exdate (ozd (aev_start instance))) in
+        let '(_, existing_exdates) := (parse_exdates_from_rrule rrule_str) in
+        if (negb (existsb (exd_eqb exdate_str) existing_exdates)) then
+          let new_rrule := (g_gcsa_add_exdate_to_rrule parse_exdates_from_rrule exd_eqb mk_exdate_part rr_snoc rrule_str exdate_str) in
+          let master_event := (mev_set_recurrence master_event (mev_recurrence_with master_event new_rrule)) in
+          match (update_event master_event) with
+          | inl _ =>
+            (RDone (wrs_success instance))
+          | inr e =>
+            (RDone (wrs_error_update e))
+          end
+        else
+          (RDone (wrs_success instance))
+  | inr e =>
+    (RDone (wrs_error_fetch master_event_id e))
+  end.
+
+(* calgebra/gcsa.py: Calendar.fetch *)
+Definition g_gcsa_fetch {AEV : Type} (fetch_forward : option Z -> option Z -> list AEV) (fetch_reverse : option Z -> option Z -> list AEV) (start : option Z) (end_ : option Z) (reverse : bool) : list AEV :=
+  if reverse then
+    (fetch_reverse start end_)
+  else
+    (fetch_forward start end_).
+
+(* calgebra/gcsa.py: Calendar._add_interval *)
+Definition g_gcsa_add_interval {TZ : Type} {IVLX : Type} {MD : Type} {PW : Type} {GEV : Type} {CREATED : Type} {ID : Type} {AEV : Type} {CID : Type} {CSUM : Type} {WRS : Type} (prepare_event_for_add : IVLX -> CID -> CSUM -> option TZ -> PW) (pw_is_write_result : PW -> bool) (wrs_of_pw : PW -> WRS) (build_gcsa_event : PW -> GEV) (add_event : GEV -> CREATED) (created_has_id : CREATED -> bool) (created_id : CREATED -> ID) (wrs_no_id : WRS) (build_result_event : PW -> ID -> AEV) (wrs_success : AEV -> WRS) (self_calendar_id : CID) (self_calendar_summary : CSUM) (self_calendar_timezone : option TZ) (interval_ : IVLX) (metadata : MD) : WRS :=
+  let result := (prepare_event_for_add interval_ self_calendar_id self_calendar_summary self_calendar_timezone) in
+  if (pw_is_write_result result) then
+    (wrs_of_pw result)
+  else
+    let prepared := result in
+    let gcsa_event := (build_gcsa_event prepared) in
+    let created_event := (add_event gcsa_event) in
+    if (negb (created_has_id created_event)) then
+      wrs_no_id
+    else
+      let result_event := (build_result_event prepared (created_id created_event)) in
+      (wrs_success result_event).
+
+(* calgebra/gcsa.py: Calendar._add_many *)
+Definition g_gcsa_add_many {IVLX : Type} {MD : Type} {WR : Type} {EXC : Type} (add_many_batch : list IVLX -> list WR + EXC) (wr_error : EXC -> WR) (intervals : list IVLX) (metadata : MD) : res (list WR) :=
+  let events_list := intervals in
+  if (negb (nonempty events_list)) then
+    (RDone (@nil WR))
+  else
+    match (add_many_batch events_list) with
+    | inl v_ =>
+      (RDone v_)
+    | inr e =>
+      (RDone (map (fun _ => (wr_error e)) events_list))
+    end.
+
+(* calgebra/gcsa.py: Calendar._add_many_batch *)
+Definition g_gcsa_add_many_batch_results {IVLX : Type} {RESD : Type} {WR : Type} (results_get_or_missing : RESD -> Z -> WR) (results : RESD) (events_list : list IVLX) : list WR :=
+  (map (fun i => (results_get_or_missing results i)) (zrange (Z.of_nat (length events_list)))).
